@@ -58,8 +58,9 @@ SubtraceClauses(p, T, ev) ==
   LET r    == ExecT(p, T)
       here == {a \in DOMAIN T.choices : AtSite(ev.extra, a)}
       want == [k \in {SiteKey(ev.extra, a) : a \in here} |-> T.choices[CHOOSE a \in here : SiteKey(ev.extra, a) = k]]
-  IN  F("subtrace.choices", Fn(ev.subt.choices) # want)
-      \cup F("subtrace.score", LawVisited(p, T) /\ ~Close(ev.subt.score, SumF(r.lps, here)))
+  IN  IF here = {} THEN {}       \* the address was not traced in this execution (e.g. masked off): outside the statement
+      ELSE F("subtrace.choices", Fn(ev.subt.choices) # want)
+           \cup F("subtrace.score", LawVisited(p, T) /\ ~Close(ev.subt.score, SumF(r.lps, here)))
 
 AssessClauses(p, ev) ==
   LET c == Fn(ev.cons)
